@@ -58,6 +58,11 @@ def scen_a(rng, k):
         if t["kind"] in ("run_experiment", "run_command"):
             t["run"] = rng.choice(["true", "./go.sh", "python3 m.py run"])
     scn["cond_symlinks"] = k % 4 == 1 and rng.random() < 0.8     # placements with packages: their COND files are symlinks
+    if k % 5 == 2:
+        # `cond run` started from INSIDE a task of an enclosing `cond run` (a driver script, a nested project): the task
+        # variables of the outer task are in Conductor's own environment and must not leak into its tasks
+        scn["ambient"] = {"COND_DEPS": "/outer/cond-out/prepare.task:/outer/cond-out/x.task.5", "COND_OUT": "/outer/cond-out/outer.task",
+                          "COND_NAME": "outer", "COND_SLOT": "7"}
     if k % 3 == 0:
         # leftovers of an earlier failed / aborted execution in the very second of this run: the version that is RECORDED must
         # be the one whose directory the task was given
